@@ -1159,6 +1159,71 @@ def evaluate(case):
     return j, out, None, out["detail"]
 
 
+REGISTRIES = ("tasks", "workers", "select_workers", "cumulative_workers", "buffers", "constraints", "indicators", "objectives")
+
+
+def _registry_snapshot():
+    pb = ps_base.active_problem
+    out = {}
+    for r in REGISTRIES:
+        reg = getattr(pb, r, None) or {}
+        if isinstance(reg, dict):
+            out[r] = {n: id(o) for n, o in reg.items()}
+        else:  # the buffers are kept in a list
+            out[r] = {f"#{k}:{getattr(o, 'name', '?')}": id(o) for k, o in enumerate(reg)}
+    return out
+
+
+def rejected_case(case):
+    """'Rejected at creation': a creation that raises leaves the model as it was, and a well-formed element of the same
+    class may then be created under the same name.  -> (performed, violated rule or None, observed)"""
+    el = case["element"]
+    if case.get("context") == "no_problem" or case.get("name_mode", "unique") != "unique":
+        return False, None, "not applicable"
+    if judge(case).verdict() != MUST_RAISE:
+        return False, None, "not an ill-formed tuple"
+    try:
+        _open_context(case)
+        kw = BUILDERS[FAMILY[el]](el, case["params"], "Q_")
+    except SetupRejected:
+        return False, None, "prerequisite rejected"
+    kw["name"] = NAME
+    before = _registry_snapshot()
+    try:
+        getattr(ps, el)(**kw)
+    except Exception:
+        pass
+    else:
+        return False, None, "accepted (judged by the grid check)"
+    after = _registry_snapshot()
+    left = sorted(f"{r}:{n}" for r in REGISTRIES for n in after[r] if before[r].get(n) != after[r][n])
+    if left:
+        return True, f"rejected_element_left_in_model.{KIND[el]}", f"the creation of {el} raised, yet the problem now holds {left}"
+    try:
+        _create_valid(el, NAME, "R_")
+    except SetupRejected as sr:
+        return True, f"retry_after_rejection_refused.{KIND[el]}", f"prerequisite of the well-formed {el}: {sr}"
+    except Exception as exc:
+        return True, f"retry_after_rejection_refused.{KIND[el]}", f"a well-formed {el} named like the rejected one was refused: {type(exc).__name__}: {str(exc)[:120]}"
+    return True, None, "model unchanged by the rejected creation; retry accepted"
+
+
+def check_rejected(ctx, case):
+    try:
+        done, bad, observed = rejected_case(case)
+    finally:
+        ps_base.active_problem = None
+    if not done:
+        return
+    ctx.evaluation()
+    ctx.event("rejected_creations_examined")
+    ctx.event(f"rejected:{KIND[case['element']]}")
+    ctx.nontrivial_case({"rejected": case})
+    if bad is not None:
+        ctx.violation({"check": "C18.rejected", "rule": bad, "case": case, "verdict": MUST_RAISE, "observed": observed,
+                       "signature": {"rule": bad, "element": case["element"]}}, bucket=f"C18|{bad}")
+
+
 def check_case(ctx, case, check="C18.grid"):
     j, out, bad, observed = evaluate(case)
     verdict = j.verdict()
@@ -1198,6 +1263,10 @@ def run_shard(ctx):
                 check_case(ctx, case, "C18.grid")
             except Violation:
                 continue  # recorded; all clauses are examined
+            try:
+                check_rejected(ctx, case)
+            except Violation:
+                continue
         ctx.event("grid_tuples_this_run", sum(1 for i in range(len(grid())) if i % ctx.nshards == ctx.shard))
         n = {"quick": 300, "thorough": 3200}[ctx.tier]
         run_hypothesis(ctx, drawn_cases(), lambda c, case: check_case(c, case, "C18.drawn"), max_examples=n)
@@ -1241,6 +1310,12 @@ def wellformed_spec_case(ctx, spec):
 
 
 def replay(record):
+    if record.get("check") == "C18.rejected":
+        try:
+            done, bad, observed = rejected_case(record["case"])
+        finally:
+            ps_base.active_problem = None
+        return (bad is not None), observed
     if record.get("check") == "C18.spec":
         from .. import build as B
         try:
